@@ -356,7 +356,7 @@ theorem timeout_congr (fuel pos : Nat) (inner inner' : Layer) (h : LEqv inner in
       | none => simp [Eqv, PR.withDone, h1, h2, h3, he]
       | some e => by_cases ht : e.is Err.TIMEOUT = true <;> simp [Eqv, PR.withFailure, PR.withDone, h1, h2, h3, he, ht]
 
-theorem cache_congr (fuel pos id : Nat) (key : String) (cif : Option Nat) (inner inner' : Layer) (h : LEqv inner inner') :
+theorem cache_congr (fuel pos id : Nat) (key : String) (cif : List Nat) (inner inner' : Layer) (h : LEqv inner inner') :
     LEqv (applyPolicy fuel pos (.cache id key cif) inner) (applyPolicy fuel pos (.cache id key cif) inner') := by
   intro r
   simp only [applyPolicy]
@@ -365,7 +365,7 @@ theorem cache_congr (fuel pos id : Nat) (key : String) (cif : Option Nat) (inner
   · rcases eqv_cases (h (r.emit "ca.onMiss" pos)) with ⟨ha, hb'⟩ | ⟨p, q, r1, ha, hb', h1, h2, h3⟩
     · simp [ha, hb', Eqv]
     · have hsc : shouldCache cif p = shouldCache cif q := by
-        unfold shouldCache; cases cif <;> simp [h2, outcome_eq h1 h2]
+        unfold shouldCache; simp [h2, outcome_eq h1 h2]
       simp only [ha, hb', hsc, h1]
       split <;> simp [Eqv, h1, h2, h3]
 
